@@ -726,6 +726,7 @@ def frame_goals(db, I, c, s, env):
 
 def finish_return(db, I, c, s, env, pre_env, retv, tag):
     wh = "return" + (f"[{tag}]" if tag else "")
+    I.canary(s, "canary-return", wh)
     for exc, name in c.raises.items():
         cond = db.eval_clause(I, s, db.clause(c, name), pre_env)
         I.oblige(s, z3.Not(cond), "raises-if", f"{exc}:{name}", wh)
